@@ -102,8 +102,11 @@ class LatticeEngine(EngineBase):
         self.calls.append(("propagate", (x, reverse, path.maxlen)))
         success, status = False, "propagating on the lattice"
         step_nr = 0
+        vpots, ekins = [], []
         if os.path.exists(traj_file):
             os.remove(traj_file)
+        with open(os.path.join(self.exe_dir, f"{name}.aux"), "w") as fh:   # a companion file (keep_traj_fnames)
+            fh.write("aux\n")
         for i in range(path.maxlen * self.subcycles):
             if i > 0:
                 d = self._draw()
@@ -120,10 +123,14 @@ class LatticeEngine(EngineBase):
             snapshot = {"order": order, "config": (traj_file, step_nr), "vel_rev": reverse}
             phase_point = self.snapshot_to_system(system, snapshot)
             status, success, stop, _add = self.add_to_path(path, phase_point, left, right)
+            if _add:
+                vpots.append(float(x))      # exactly 0.0 at x = 0: a present energy, not a missing one
+                ekins.append(0.5)
             if stop:
                 break
             step_nr += 1
         if self.sleep:
             time.sleep(self.sleep * (((time.perf_counter_ns() >> 6) % 11) / 11.0))
         msg_file.write("# Propagation done.")
+        path.update_energies(ekins, vpots)
         return success, status
